@@ -14,6 +14,18 @@ fn main() {
     if args.len() >= 3 && args[1] == "pure-one" {
         std::process::exit(dnsmon::checks::c17::pure_one(&args[2]));
     }
+    if args.len() >= 4 && args[1] == "dump-corpus" {
+        let n = dnsmon::checks::fuzz::dump_corpus(&args[2], args[3].parse().unwrap_or(1)).expect("dump corpus");
+        println!("{}", n);
+        return;
+    }
+    if args.len() >= 4 && args[1] == "fuzz-one" {
+        // re-run one fuzz artifact through the target's oracles and print the context
+        let data = std::fs::read(&args[3]).expect("read artifact");
+        let ctx = dnsmon::checks::fuzz::run_target(&args[2], &data, false);
+        println!("{}", ctx.to_json());
+        return;
+    }
     if args.len() >= 2 && args[1] == "noop" {
         return;
     }
